@@ -135,6 +135,8 @@ static bool relevant(const std::string& prop, const std::string& vprops, const C
     // and an emplace_back somewhere behind a growing reserve: the reserved room has to be usable
     if (prop == "C10" && !in_fault)
         return (generic || mem) && (k == O_RS || e.fill_phase || ((e.fault_seen || e.seen_rs_grow) && (k == O_EB || k == O_FILL || k == O_EBS)));
+    // a double destruction / construction on a live object is what it is, with or without an injected failure
+    if (prop == "C06" && (in_fault || e.fault_seen)) return has_prop(vprops, "C06");
     if (in_fault || e.fault_seen) return false;
     if (prop == "C01") return generic && is_c01_op(k) && !e.seen_pair_op;
     if (prop == "C02") return mem || has_prop(vprops, "CRASH");
